@@ -85,7 +85,7 @@ def census(items, chains=None, titrate_only=None):
             if a.name in ('OXT', "O''"):
                 out.append(dict(chain=ch, resnum=a.resnum, icode=a.icode, kind='C-', model=MODEL['C-'], res=key))
                 if cur_start:
-                    info[key].add('C-within-3-bonds-of-own-N+')
+                    info[key].add('Cterm-within-3-bonds-of-own-Nterm')
                 start = True
                 prev_oxt_res = key
                 last_sep = 'OXT'
@@ -96,7 +96,7 @@ def census(items, chains=None, titrate_only=None):
                 if k == 'CYS':
                     sgs.append((a, g))
                 if cur_start and k in ('ASP', 'CYS', 'HIS'):
-                    info[key].add('sidechain-within-3-bonds-of-own-N+')
+                    info[key].add('sidechain-within-3-bonds-of-own-Nterm')
     for (a, g), (b, h) in itertools.combinations(sgs, 2):
         if (a.x - b.x) ** 2 + (a.y - b.y) ** 2 + (a.z - b.z) ** 2 < 2500 ** 2:
             g['bridged'] = h['bridged'] = True
@@ -178,12 +178,14 @@ def compare(case, items, opts, acc, chains=None, titrate_only=None, text=None, j
         if kind in PROT:
             sumc[row['label']] += 1
     explab = collections.Counter(label(g) for g in exp)
-    lab2key = {}
+    lab2keys = collections.defaultdict(list)
     for g in exp:
-        lab2key.setdefault(label(g), key4(g))
+        lab2keys[label(g)].append(key4(g))
     for lab in (explab - sumc):
-        k = lab2key[lab]
-        viols.append(('summary-missing/%s/%s' % (k[3], feats(k)), 'summary lacks %r' % lab))
+        # residues that differ only in insertion code print the same label: the situation is the union of theirs
+        ks = lab2keys[lab]
+        fs = sorted({f for k in ks for f in feats(k).split('+') if f != 'plain'}) or ['plain']
+        viols.append(('summary-missing/%s/%s' % (ks[0][3], '+'.join(fs)), 'summary lacks %r' % lab))
     for lab in (sumc - explab):
         viols.append(('summary-spurious/%s' % lab[:3].strip(), 'summary has unexpected %r' % lab))
     for row in p['summary']:
@@ -447,6 +449,13 @@ def plan(tier, seed):
     others += [dict(kind='whole', key='3SGB', chains=['E']), dict(kind='whole', key='3SGB', chains=['I']),
                dict(kind='whole', key='1HPX', chains=['B'])]
     others += [dict(kind='cfg-table')]
+    # multi-conformation inputs whose conformations complete each other (alt-loc partial alternates, models with missing
+    # atoms): every conformation must show the census of the complete residue, also under titrate-only / chain selection
+    for lay in ([(' ', 'ASP'), ('B', 'ASPs')], [('A', 'ASP'), ('B', 'ASPs'), ('C', 'ASP')], [('1', 'ASPs'), ('2', 'ASP')]):
+        for partial in (False, True):
+            others.append(dict(kind='layout', how='alt', layout=lay, partial=partial))
+    for lay in ([(1, 'ASP'), (2, 'ASPnoCG')], [(1, 'ASPnoCG'), (2, 'ASP')], [(1, 'ASP'), (2, 'ASPnoCG'), (3, 'ASPs')]):
+        others.append(dict(kind='layout', how='model', layout=lay))
     allc = streams + windows
     size = 400
     shards = [allc[i:i + size] for i in range(0, len(allc), size)] + [[c] for c in others]
@@ -547,6 +556,20 @@ def run_case(case, ctx, acc):
         acc.case(nontrivial_key=jhash(case), outcome='whole:%s:%d' % (case['key'], len(exp)))
     elif k == 'cfg-table':
         cfg_table(case, acc)
+    elif k == 'layout':
+        from . import c08
+        d = dict(kind=case['how'], layout=case['layout'])
+        if case.get('partial'):
+            d['partial'] = True
+        text = gen.to_text(c08.build(d, ctx.seed))
+        pre, mid, post, lys = c08.base_parts()
+        one = gen.S([a.clone() for a in pre + mid + post] + ['TER\n'] + [a.clone() for a in lys] + ['TER\n']).translate(gen.seed_offset(ctx.seed))
+        for sel, opts, kw in ((None, (), {}), ('titrate', ('-i', 'A:2'), dict(titrate_only=[('A', 2, ' ')])),
+                              ('titrate-all', ('-i', 'A:1,A:2,A:3,B:11,B:12,B:13'), dict(titrate_only=[('A', 1, ' '), ('A', 2, ' '), ('A', 3, ' '), ('B', 11, ' '), ('B', 12, ' '), ('B', 13, ' ')])),
+                              ('chain', ('-c', 'A'), dict(chains=['A']))):
+            compare(dict(case, sel=sel), one.items, opts, acc, text=text, **kw)
+            acc.n += 1
+        acc.case(nontrivial_key=jhash(case), outcome='layout')
 
 
 def cfg_table(case, acc):
